@@ -1,0 +1,19 @@
+// +build verif
+
+package client
+
+// Verification hooks (build tag "verif"): give the /verif harness a handle
+// on the unexported topology so that endpoint selection can be tested as a
+// state machine. Add-only; with the tag off this file is not compiled.
+
+// VerifTopology is the client's topology (all its methods are exported
+// names: Update, Primary, Endpoints, NextReadEndpoint, ...).
+type VerifTopology = topology
+
+// VerifNewTopology builds an empty topology.
+func VerifNewTopology(attemptToRevive bool) *VerifTopology {
+	return newTopology(attemptToRevive)
+}
+
+// VerifTopology returns the topology a client is using.
+func (c *HTTPClient) VerifTopology() *VerifTopology { return c.topology }
